@@ -677,8 +677,11 @@ func (c *Ctx) noGlobalWrites(rule string, entries []*ssa.Function, where string)
 				locked = true
 			}
 		}
+		if w.What == "sync.Map write" && !strings.HasPrefix(rule, "R19") {
+			locked = true // synchronised by construction; only the secret generators must not keep state at all
+		}
 		if locked {
-			r.Hold(rule, sprintf("global-write:%s#%d", base, ord[base]), c.pos(w.Instr.Pos()), "package variable written inside an exclusive lock section")
+			r.Hold(rule, sprintf("global-write:%s#%d", base, ord[base]), c.pos(w.Instr.Pos()), "package variable written inside an exclusive lock section (or a sync.Map)")
 			continue
 		}
 		r.Violate(rule, sprintf("global-write:%s#%d", base, ord[base]), c.pos(w.Instr.Pos()), sprintf("%s of the package variable %s on %s", w.What, w.Global.Name(), where))
